@@ -48,6 +48,25 @@ def apply_patch(copy, patch):
         shutil.rmtree(os.path.join(copy, '.git'), ignore_errors=True)
 
 
+def kill_leftovers(copy):
+    """Processes started from the scratch copy that outlived their parent (a mutant may make the real server spin
+    forever after its client is gone): they would eat a core for the rest of the session."""
+    import signal
+    for pid in os.listdir('/proc'):
+        if not pid.isdigit() or int(pid) == os.getpid():
+            continue
+        try:
+            with open('/proc/%s/cmdline' % pid, 'rb') as f:
+                cmd = f.read().decode('utf-8', 'replace')
+        except OSError:
+            continue
+        if copy in cmd:
+            try:
+                os.kill(int(pid), signal.SIGKILL)
+            except OSError:
+                pass
+
+
 def run_tests(copy):
     env = dict(os.environ, PYTHONPATH=copy, PYTHONDONTWRITEBYTECODE='1')
     p = subprocess.run([PY, '-m', 'pytest', '-q', '-p', 'no:cacheprovider', '-x', '--timeout=600'], cwd=copy, env=env,
@@ -105,6 +124,7 @@ def main():
             results.append({'kind': kind, 'property': pid, 'name': name, 'detected': False, 'check_rc': None,
                             'error': str(e)[:300]})
         finally:
+            kill_leftovers(copy)
             shutil.rmtree(copy, ignore_errors=True)
     finish(results, args)
     return 1 if [r for r in results if not r['detected']] else 0
